@@ -214,16 +214,26 @@ var c11Orders = []string{"", "_time", "a DESC"}
 var c11Limits = []string{"", "1", "1, 2"}
 var c11Froms = []string{"tablea", "(SELECT * FROM tablea GROUP BY x, y)", "(SELECT * FROM tablea GROUP BY x, y ORDER BY _time)"}
 
+// FROM-subqueries whose inner GROUP BY drops, or shadows by an alias, a dimension the outer query groups by (the inner
+// groups then span partitions even when the outer GROUP BY names every partition key); crossed with a reduced set of
+// the other clauses
+var c11FromsDropping = []string{"(SELECT * FROM tablea GROUP BY y)", "(SELECT * FROM tablea GROUP BY x)", "(SELECT a, b FROM tablea GROUP BY y, CONCAT('_', y) AS x)", "(SELECT a, b FROM tablea GROUP BY y, LEN(y) AS x)"}
+
 func c11Programs() []string {
+	out := c11ProgramsOver(c11Froms, c11Wheres, c11Havings, c11Orders, c11Limits)
+	return append(out, c11ProgramsOver(c11FromsDropping, []string{"", "x = 1"}, []string{"", "a > 10"}, []string{"", "a DESC"}, []string{"", "1"})...)
+}
+
+func c11ProgramsOver(froms, wheres, havings, orders, limits []string) []string {
 	var out []string
-	for _, from := range c11Froms {
+	for _, from := range froms {
 		for _, sel := range c11Selects {
-			for _, wh := range c11Wheres {
+			for _, wh := range wheres {
 				for _, gb := range c11GroupBys {
 					for _, ct := range c11Crosstabs {
-						for _, hv := range c11Havings {
-							for _, ob := range c11Orders {
-								for _, lm := range c11Limits {
+						for _, hv := range havings {
+							for _, ob := range orders {
+								for _, lm := range limits {
 									sql := "SELECT " + sel + " FROM " + from
 									if wh != "" {
 										sql += " WHERE " + wh
@@ -292,6 +302,15 @@ func c11Exec(plan core.FlatRowSource) (r *c11Result) {
 	})
 	r.err = err
 	return r
+}
+
+func sortedKeys(m map[string]bool) []string {
+	var out []string
+	for k := range m {
+		out = append(out, k)
+	}
+	sort.Strings(out)
+	return out
 }
 
 func sortedCopy(s []string) []string {
@@ -457,6 +476,23 @@ func c11Check(c *fw.Ctx, cs c11Case) {
 			return
 		}
 	}
+	if !same && pushdown && strings.Contains(cs.SQL, "LEN(y) AS x") && len(cluster.keys) > len(local.keys) {
+		// known finding D20, matched narrowly: the pinned goexpr dependency declares LEN one-to-one
+		// (length.WalkOneToOneParams passes its source through), so pushdownAllowed takes an outer GROUP BY on the
+		// alias x = LEN(y) for a grouping by the partition key y and pushes the query down whole; the groups then
+		// come back once per partition. Signature: same set of output groups, some of them several times.
+		cset, lset := map[string]bool{}, map[string]bool{}
+		for _, k := range cluster.keys {
+			cset[k] = true
+		}
+		for _, k := range local.keys {
+			lset[k] = true
+		}
+		if fmt.Sprint(sortedKeys(cset)) == fmt.Sprint(sortedKeys(lset)) {
+			fail("D20-len-treated-as-one-to-one", fmt.Sprintf("cluster rows %v\nlocal rows   %v\ncluster plan:\n%s", cluster.rows, local.rows, cluster.plan))
+			return
+		}
+	}
 	if !same {
 		fail("cluster-plan-rows-differ", fmt.Sprintf("cluster rows %v\nlocal rows   %v\ncluster plan:\n%s\nlocal plan:\n%s", cluster.rows, local.rows, cluster.plan, local.plan))
 		return
@@ -538,7 +574,7 @@ func init() {
 		ID:          "C11",
 		Level:       "translation_validation",
 		Par:         16,
-		Rule:        "programs: the full product SELECT {*, a, 'a, b', a + b AS t, AVG(a) AS av, _} × WHERE {none, x = 1, two string literals containing SQL keywords, IN-subquery} × GROUP BY {none, *, x, y, 'x, y', CONCAT expression, x with period(2s), _ with STRIDE(4s)} × CROSSTAB {none, CROSSTAB(y), CROSSTABT(y)} × HAVING {none, selected, unselected field} × ORDER {none, _time, a DESC} × LIMIT {none, 1, '1, 2'} × FROM {table, subquery, subquery with ORDER BY} (58 320 SQL texts; quick: every 12th) × partition keys {none, x, y, xy} × N in 1..6 × 3 row sets; each program is planned with and without QueryCluster by the real planner over mock tables; the cluster plan runs against partitions split by the murmur3 rule; oracle: same fields and rows as the local plan over the union (order under ORDER BY, any n rows for a bare LIMIT) and, for whole-query pushdown, output groups of different partitions disjoint; non-trivial = program with rows and N > 1",
+		Rule:        "programs: the full product SELECT {*, a, 'a, b', a + b AS t, AVG(a) AS av, _} × WHERE {none, x = 1, two string literals containing SQL keywords, IN-subquery} × GROUP BY {none, *, x, y, 'x, y', CONCAT expression, x with period(2s), _ with STRIDE(4s)} × CROSSTAB {none, CROSSTAB(y), CROSSTABT(y)} × HAVING {none, selected, unselected field} × ORDER {none, _time, a DESC} × LIMIT {none, 1, '1, 2'} × FROM {table, subquery, subquery with ORDER BY} (67 536 SQL texts; quick: every 12th) × partition keys {none, x, y, xy} × N in 1..6 × 3 row sets; each program is planned with and without QueryCluster by the real planner over mock tables; the cluster plan runs against partitions split by the murmur3 rule; oracle: same fields and rows as the local plan over the union (order under ORDER BY, any n rows for a bare LIMIT) and, for whole-query pushdown, output groups of different partitions disjoint; non-trivial = program with rows and N > 1",
 		Assumptions: []string{"mock QueryCluster plans the pushed SQL per partition like DB.queryCluster does (fields of the first partition announced)", "programs the local planner rejects are counted, not validated"},
 		Shards:      func(tier string) int { return 16 },
 		Budget:      func(tier string) time.Duration { return 40 * time.Minute },
